@@ -120,6 +120,8 @@ inductive Val where
   | none_                              -- value of an untagged / header field (not encoded from a value)
 deriving DecidableEq, Repr
 
+instance : Inhabited Val := ⟨.none_⟩
+
 /-! ## integers -/
 
 def le16 (n : Nat) : Bytes := [UInt8.ofNat (n % 256), UInt8.ofNat (n / 256 % 256)]
